@@ -127,6 +127,12 @@ def run(tier, seed):
     nobf, ndf, ffail, fass = core.prove_files(core.BUILD + '/props/C07_fma', {'Fma_000': fl}, hdr=C01.HDR, footer='') if fl else (0, 0, [], {})
     notes['mul_add_fused_lemmas'] = {'stated': nobf, 'proved': ndf}
     fextra = [({'kind': 'unproved', 'theorem': l.name, 'statement': l.statement()[:1500], 'meta': l.meta, 'coq_error': err[-400:], 'how_found': 'mul_add must be the lane-wise fused primitive in every configuration (lemma of C01 re-proved here)'}, False) for l, err in ffail]
+    # entry-wise / component-wise operators of the SIMD-backed matrix and quaternion types are the per-lane primitive in every backend (structural
+    # lemmas of C03 / C04 re-proved here): rules out `x / s` computed as `x * (1 / s)` in one backend only, which no tolerance-based comparison sees
+    sl = [l for l in C03.entrywise(idx) + C04.componentwise(idx) if tname({'n': l.meta['key'].split('::')[0]}) in SIMD_TYPES]
+    nobs, nds, sfail, _ = core.prove_files(core.BUILD + '/props/C07_ops', {'Ops_%03d' % (i // 12): sl[i:i + 12] for i in range(0, len(sl), 12)}, hdr=core.HDR, footer='') if sl else (0, 0, [], {})
+    notes['per_lane_operator_lemmas'] = {'stated': nobs, 'proved': nds}
+    fextra += [({'kind': 'unproved', 'theorem': l.name, 'statement': l.statement()[:1500], 'meta': l.meta, 'coq_error': err[-400:], 'how_found': 'entry-wise operator of a SIMD-backed type must be the per-lane primitive in every backend'}, False) for l, err in sfail]
     stats, badx = cross_backend(idx, seed, 2 if tier == 'quick' else 6, tier)
     notes['cross_backend'] = stats
     extra = fextra + [({'kind': 'counterexample', 'theorem': 'target-feature independence of the translated crate', 'function': k, 'how_found': 'the +fma translation of this function differs from the default translation and it is not a fused-multiply-add entry point'}, False) for k in badfma[:10]] + badx[:10]
